@@ -90,11 +90,11 @@ func hashUserType(ut UserType, ignoreFields, ignoreNames, ignoreTags bool, seen 
 	}
 	att := ut.Attribute()
 	if !ignoreTags {
-		for k, v := range att.Meta {
+		for _, k := range sortedKeys(att.Meta) {
 			if !strings.HasPrefix(k, "struct:field:") {
 				continue
 			}
-			h += fmt.Sprintf("%s%s%s", tagPrefix, k, v)
+			h += fmt.Sprintf("%s%s%s", tagPrefix, k, att.Meta[k])
 		}
 	}
 	h += userTypeHashPrefix + *hash(att.Type, ignoreFields, ignoreNames, ignoreTags, seen)
@@ -112,11 +112,11 @@ func hashObject(o *Object, ignoreFields, ignoreNames, ignoreTags bool, seen map[
 		*ph += attributePrefix + a.Name +
 			attributeTypePrefix + *hash(a.Attribute.Type, ignoreFields, ignoreNames, ignoreTags, seen)
 		if !ignoreTags {
-			for k, v := range a.Attribute.Meta {
+			for _, k := range sortedKeys(a.Attribute.Meta) {
 				if !strings.HasPrefix(k, "struct:field:") {
 					continue
 				}
-				*ph += fmt.Sprintf("%s%s%s", tagPrefix, k, v)
+				*ph += fmt.Sprintf("%s%s%s", tagPrefix, k, a.Attribute.Meta[k])
 			}
 		}
 	}
@@ -131,4 +131,14 @@ func sorted(o *Object) Object {
 	copy(s, *o)
 	sort.Slice(s, func(i, j int) bool { return s[i].Name < s[j].Name })
 	return Object(s)
+}
+
+// sortedKeys returns the keys of the given metadata in a deterministic order.
+func sortedKeys(m MetaExpr) []string {
+	keys := make([]string, 0, len(m))
+	for k := range m {
+		keys = append(keys, k)
+	}
+	sort.Strings(keys)
+	return keys
 }
